@@ -20,6 +20,7 @@ func init() {
 		Rules: []RuleDef{
 			{ID: "C16.R1", Min: 4, Doc: "skip, never corrupt: path enumeration of Conn.Write, GrafanaNet.run (ingest closure) and KafkaMdm.run; parseMetric's Validate error is returned", Run: c16r1},
 			{ID: "C16.R2", Min: 8, Doc: "field wiring of parseMetric's MetricData literal and ParseDataPoint's Datapoint; ordering sort.Strings(tags) → lookup string; ParseUint bit sizes", Run: c16r2},
+			{ID: "C16.R4", Min: 2, Doc: "pickle layout: [(string(Name), (Time, Val))] encoded before the big-endian length prefix is computed from the encoded payload (rule C05.R4 evaluated for this property as well)", Run: c05r4},
 			{ID: "C16.R3", Min: 3, Doc: "first rule wins: return inside the range loop of Match; sort.Sort(schemas) in ReadWhisperSchemas; Less = Priority >=; Priority = p<<32 − i", Run: c16r3},
 		},
 	})
